@@ -275,6 +275,7 @@ def run_check(prop, tier, seed, replay_path=None):
             "broken": broken,
             "failing_input_search": searched,
             "ext_build_cached": snap.ext_cached,
+            "checked_tree": snap.repo_state(),
             "lake_build_s": round(t_build, 2),
         }
         if res.exhaustive is not None:
